@@ -40,7 +40,7 @@ func VerifC20_Residue() {
 		verifrt.FaultBudget = 1
 	}
 	if refresh {
-		_ = w.repo.updateCRL("h-h-" + url1)
+		_ = w.repo.updateCRL(idOfCDP(url1))
 	} else {
 		_, _ = w.repo.AddCRL(loc, chainsOf(cert("CN=I1", s1)))
 	}
@@ -58,7 +58,7 @@ func VerifC20_Residue() {
 	verifrt.Reach("checked")
 	verifrt.Assert(verifrt.TempResidue("/work") == 0, "no temporary artefact remains after a load or refresh, successful or not")
 	if refresh {
-		d := verifrt.Disk["/work/h-h-http:/a/crl"]
+		d := verifrt.Disk["/work/"+idOfCDP(url1)]
 		verifrt.Assert(d != nil && d.Exists, "the live store has not been deleted")
 	}
 }
